@@ -60,34 +60,28 @@ Definition plan_of_keys (T : tables) (steps : list step) (m : mode) (C : list ke
        (map (fun k => fst (fst k)) C ++ map (sig T) (required_b m (existsb (fun k => snd k) C))) no_flags.
 
 (* the first field of a class set that the requests do not supply *)
-Definition bad_field (T : tables) (steps : list step) (P : string -> list fetch) (names : list field)
-           (m : mode) (C : list key) : option field :=
+Definition bad_field (T : tables) (steps : list step) (disp : flags -> list fetch) (P : string -> list fetch)
+           (names : list field) (m : mode) (C : list key) : option field :=
   if mode_ok_keys m C then
-    let fs := dispatch (plan_of_keys T steps m C) in
+    let fs := disp (plan_of_keys T steps m C) in
     find (fun f => existsb (key_eqb (key_of T f)) C && negb (supplied_b P fs m f)) names
   else None.
 
 Definition none_bad {A} (o : option A) : bool := match o with None => true | Some _ => false end.
 
-Definition check_plan (T : tables) (steps : list step) (P : string -> list fetch) (names : list field) : bool :=
-  forallb (fun m => forallb (fun C => none_bad (bad_field T steps P names m C)) (sublists (classes T names)))
+Definition check_plan (T : tables) (steps : list step) (disp : flags -> list fetch) (P : string -> list fetch)
+           (names : list field) : bool :=
+  forallb (fun m => forallb (fun C => none_bad (bad_field T steps disp P names m C)) (sublists (classes T names)))
           [MTx; MLog; MTrace].
 
 (* for the report: every (mode, names of the class set, offending field) that fails *)
 Definition class_names (T : tables) (names : list field) (C : list key) : list string :=
   map f_name (filter (fun f => existsb (key_eqb (key_of T f)) C) names).
-Definition counterexamples (T : tables) (steps : list step) (P : string -> list fetch) (names : list field)
-  : list (mode * list string * string) :=
+Definition counterexamples (T : tables) (steps : list step) (disp : flags -> list fetch) (P : string -> list fetch)
+           (names : list field) : list (mode * list string * string) :=
   flat_map (fun m =>
-    flat_map (fun C => match bad_field T steps P names m C with
+    flat_map (fun C => match bad_field T steps disp P names m C with
                        | Some f => [(m, class_names T names C, f_name f)]
                        | None => [] end)
              (sublists (classes T names))) [MTx; MLog; MTrace].
 
-(* the same with the dispatch of the client as found *)
-Definition legacy_bad_field (T : tables) (steps : list step) (P : string -> list fetch) (names : list field)
-           (m : mode) (C : list key) : option field :=
-  if mode_ok_keys m C then
-    let fs := legacy_dispatch (plan_of_keys T steps m C) in
-    find (fun f => existsb (key_eqb (key_of T f)) C && negb (supplied_b P fs m f)) names
-  else None.
